@@ -14,6 +14,8 @@ Transcribed from the code that exists:
 * which function writes, which delegates to which, the path templates of writers and readers, the constant class
   strings and whether the `install_*` front-ends pass `repository_path` are *not* written here: they come from
   `Tables`, generated from the source by `harness/translators/repo_paths.py` into `Cherab/Gen/RepoPaths.lean`.
+* `update_pec_rates` re-fetches the data of a transition from its argument with the *lower-cased* class key
+  (`pecReindex`, guarded by the generated flag `Tables.pecReindexes`).
 Mathlib-free (linked into the native driver).
 -/
 namespace Cherab.Repository
@@ -69,6 +71,8 @@ structure Species where
   isElement : Bool
   symbol : String
   z : Int
+  /-- distinguishes Python objects that share symbol and Z (hydrogen / protium): dictionary keys compare by identity -/
+  tag : Int := 0
   deriving DecidableEq, Repr, Inhabited
 
 inductive Level | int (n : Int) | str (s : String)
@@ -193,6 +197,9 @@ structure Tables where
   /-- every other call in install.py / create.py of a function that accepts `repository_path`:
       (caller, callee, passes it) -/
   frontCalls : List (String × String × Bool)
+  /-- `update_pec_rates` rebinds its loop variable (`cls = cls.lower()`) and then fetches the data of a transition by
+      indexing the argument again, `rates[cls][element][charge][transition]` — i.e. from the *lower-case* class entry -/
+  pecReindexes : Bool
 
 /-- the family an add/update/get function belongs to *by its name* (the specification of "matching") -/
 def AddFn.own : AddFn → UpdFn
@@ -370,8 +377,6 @@ def UpdFn.innerCheck : UpdFn → List Arg → List Arg → Option Err
   | .ionisation, [s], [q] | .recombination, [s], [q] | .linePower, [s], [q] | .continuumPower, [s], [q]
   | .cxPower, [s], [q] => chargeOk s q
   | .thermalCx, [_, _, r], [q] => chargeOk r q
-  -- `data = rates[cls][element][charge][transition]` with the *lower-cased* class
-  | .pec, .str c :: _, _ => if lower c = c then none else some .keyError
   | .beamCx, _, [_, .num m] => if m ≥ 0 then none else some .valueError
   | _, _, _ => none
 
@@ -469,9 +474,29 @@ def seqEntries (f : FileEntry → FS → Res) : List FileEntry → FS → Res
     | (fs', none) => seqEntries f es fs'
     | r => r
 
+/-- `data = rates[cls][element][charge][transition]` evaluated with the lower-cased `cls`: an entry whose class key is
+not lower-case gets, for every transition, the rate dictionary the *lower-case* class entry of the same call holds for the
+same element, charge and transition (dictionary-key equality) — a KeyError if there is none (an empty rate dictionary
+makes `validatePec` raise exactly that, at the same point) -/
+def pecReindex (inp : UpdInput) : UpdInput :=
+  inp.map fun e =>
+    match e.args with
+    | .str c :: rest =>
+      if lower c = c then e else
+        { e with inner := e.inner.map fun it =>
+            (it.1, match (inp.find? fun e' => e'.args = .str (lower c) :: rest).bind (fun e' => alookup it.1 e'.inner) with
+                   | some r => r
+                   | none => []) }
+    | _ => e
+
+/-- what the body of `update_x` actually iterates over / reads -/
+def UpdFn.prep (T : Tables) : UpdFn → UpdInput → UpdInput
+  | .pec, inp => if T.pecReindexes then pecReindex inp else inp
+  | _, inp => inp
+
 /-- `update_x(rates, repository_path)` -/
 def update (T : Tables) (u : UpdFn) (inp : UpdInput) (root : Option Path) (fs : FS) : Res :=
-  seqEntries (updateEntry u (T.tmplOfUpd u) (resolve root)) inp fs
+  seqEntries (updateEntry u (T.tmplOfUpd u) (resolve root)) (u.prep T inp) fs
 
 /-- how each `add_y` wraps its arguments into the nested dictionary it hands on (argument order as in the source) -/
 def AddFn.wrap (T : Tables) : AddFn → List Arg → List (List Arg × Rate) → UpdInput
